@@ -8,8 +8,14 @@
      CR inside the coloured first line).
   2. Abstract records are generated: one cell per (position, character class), one per value
      kind, one per TLC-enumerated tree, a presentation grid (severity x tag width x minimal
-     width x message shape x caller x name) and seeded random big records (<= 64 attributes,
-     depth <= 4).  Only ABSTRACT data is generated here - no expected output.
+     width x message shape x caller x name), RESERVED-NAME cells (time / level / msg / logger /
+     caller as the own key of a group member at depth 1..3 x every value kind incl. group; every
+     tree TLC enumerated over the keys {k01, time}; colored: the same names at top level), LEVEL
+     COLOUR cells (SetLevelColors(sev, fg, bg): {no fg, fg} x {nothing, background, attribute} x
+     built-in / registered / unregistered severities x messages of 1, 2, 3, 4 lines, blank lines,
+     trailing breaks x attribute lists) and seeded random big records (<= 64 attributes, depth
+     <= 4, reserved member keys and colour configurations mixed in).  Only ABSTRACT data is
+     generated here - no expected output.
   3. The Go worker (harness/fam_encoder*.go) concretises each record, logs it through the real
      library, and projects the payload with independent decoders.
   4. TLC validates the recording against spec/EncoderTrace.tla: Diag(rec, obs) is the set of
@@ -33,6 +39,11 @@ SLICES = ["strs", "bools", "ints", "uints", "floats", "complexes", "durations", 
 KEY_CLASSES_TEXTFMT = ["plain", "nonascii", "astral", "markup", "bslash"]     # legal logfmt keys
 ATTR_DIAGS = {"invalid-json", "members", "top-level-members", "unparsable", "pairs"}   # "the attribute list is wrong"
 IMPLIED = {"after-group": {"group"}, "empty-group": {"group"}, "nested-group": {"group"}}
+RESERVED = {"caller": -1, "level": 96, "logger": 97, "msg": 98, "time": 99}      # ReservedIds of Encoder.tla
+RES_NAME = {v: k for k, v in RESERVED.items()}
+SEV_COLOURED_UNREG = 34        # an unregistered severity whose colours get set (33 stays without any)
+LC_COMBOS = [(f, b) for f in ("none", "fg") for b in ("none", "bg", "attr")]
+NO_LC = dict(set=False, fg="none", bg="none")
 
 
 # ------------------------------------------------------------------ model checking
@@ -43,13 +54,13 @@ def model_check(ctx, fmt):
     vocab_expr = ('[classes |-> Classes, kinds |-> Kinds, textkinds |-> TextKinds, control |-> Control, '
                   'layout |-> LayoutClasses, '
                   'must |-> [json |-> Classes \\ JsonRawOK, logfmt |-> Classes \\ GoRawOK, color |-> Control], '
-                  'mechjsonbad |-> MechJsonBad]')
+                  'mechjsonbad |-> MechJsonBad, reserved |-> ReservedIds, fgonlybad |-> FgOnlyCloseBad]')
     mc = ("---- MODULE MC_Enc ----\nEXTENDS Encoder, Json\n"
-          "c_KeyIds == {0, 1, 2, 3}\nc_KeyIds2 == {1, 2}\n"
+          "c_KeyIds == {0, 1, 2, 3}\nc_KeyIds2 == {1, 2}\nc_KeyIdsR == {1, 99}\nc_KeyIdsR2 == {-1, 1, 98, 99}\n"
           'Export == PrintT("@@tree " \\o ToJson(flat))\n'
           'ASSUME PrintT("@@vocab " \\o ToJson(%s))\n====\n' % vocab_expr)
     invs = ("Legal RoundTrip OneLine NoForgery NoRawControl MergeSorted MergeLastWins MergeIdempotent "
-            "MembersCount PairsAscending PairsComplete ColourOK Export")
+            "MembersCount PairsAscending PairsComplete KeyNamesDoNotMatter ColourOK Export")
     cfg = ("CONSTANTS\n  KeyIds <- c_KeyIds\n  MaxNodes = %d\n  MaxDepth = %d\nINIT Init\nNEXT Next\n"
            "CHECK_DEADLOCK FALSE\nINVARIANTS %s\n" % (3 if quick else 4, 2 if quick else 3, invs))
     files["MC_Enc.tla"] = mc
@@ -60,6 +71,21 @@ def model_check(ctx, fmt):
     if not vocab or len(trees) != r.distinct:
         raise Undecided("model run did not export vocabulary / all trees (%d of %d)" % (len(trees), r.distinct))
     vocab = vocab[0]
+    # the same machine over the keys {k01, time}: the reserved name at every place of every small tree
+    rcfg = ("CONSTANTS\n  KeyIds <- c_KeyIdsR\n  MaxNodes = %d\n  MaxDepth = %d\nINIT Init\nNEXT Next\n"
+            "CHECK_DEADLOCK FALSE\nINVARIANTS %s\n" % (3 if quick else 4, 2 if quick else 3,
+                                                         invs.replace("ColourOK ", "")))
+    rr = ctx.model_check("MC_Enc", "R.cfg", files={"MC_Enc.tla": mc, "R.cfg": rcfg}, name="enc-mc-reserved", timeout=800)
+    rtrees = rr.prints("tree")
+    if len(rtrees) != rr.distinct:
+        raise Undecided("model run did not export all reserved-key trees (%d of %d)" % (len(rtrees), rr.distinct))
+    vocab["rtrees"] = rtrees
+    if not quick:
+        # TLC only: caller / msg / time next to an ordinary key, <= 4 nodes
+        r2cfg = ("CONSTANTS\n  KeyIds <- c_KeyIdsR2\n  MaxNodes = 4\n  MaxDepth = 3\nINIT Init\nNEXT Next\n"
+                 "CHECK_DEADLOCK FALSE\nINVARIANTS MergeSorted MergeLastWins MergeIdempotent MembersCount "
+                 "PairsAscending PairsComplete KeyNamesDoNotMatter\n")
+        ctx.model_check("MC_Enc", "R2.cfg", files={"MC_Enc.tla": mc, "R2.cfg": r2cfg}, name="enc-mc-reserved-deep", timeout=1500)
     if not quick:
         # deeper, TLC only (no export): every tree of <= 6 nodes over two keys, depth <= 3
         dcfg = ("CONSTANTS\n  KeyIds <- c_KeyIds2\n  MaxNodes = 6\n  MaxDepth = 3\nINIT Init\nNEXT Next\n"
@@ -69,13 +95,18 @@ def model_check(ctx, fmt):
     # vacuity: the invariants must be able to fail
     wcfg = ("CONSTANTS\n  KeyIds <- c_KeyIds\n  MaxNodes = 1\n  MaxDepth = 0\nINIT Init\nNEXT Next\n"
             "CHECK_DEADLOCK FALSE\nINVARIANTS %s\n")
-    for inv in (["MechIsJson"] if fmt == "json" else ["CRIsClean"] if fmt == "color" else ["MechIsJson"]):
+    for inv in (["MechIsJson"] if fmt == "json" else ["CRIsClean", "FgOnlyCloseIsClean"] if fmt == "color" else ["MechIsJson"]):
         w = ctx.tlc("MC_Enc", "W.cfg", files={"MC_Enc.tla": mc, "W.cfg": wcfg % inv}, name="enc-witness-" + inv,
                     allow_fail=True, workers=1, timeout=300)
         if inv not in w.invariant_violated and ("invariant of %s is equal to FALSE" % inv) not in w.out:
             raise Undecided("witness invariant %s was expected to be violated by TLC but was not" % inv)
         ctx.extra.setdefault("witness_violations", []).append(inv)
     ctx.extra["model_predicted_json_bad_classes"] = sorted(vocab["mechjsonbad"])
+    # where the discipline "closing reset only after a foreground" leaks, according to the model:
+    # exactly the configurations without foreground but with a background / attribute, >= 2 lines
+    ctx.extra["model_predicted_fg_only_close_leaks"] = sorted([list(x[0]), x[1]] for x in vocab["fgonlybad"])
+    if fmt == "color" and not any(x[1] >= 3 for x in vocab["fgonlybad"]):
+        raise Undecided("witness FgOnlyCloseBad is empty for >= 3 lines")
     return vocab, trees
 
 
@@ -106,12 +137,13 @@ class Gen:
         self.tags = []
         self.rng = random.Random(seed)
 
-    def add(self, tag, msg=None, attrs=None, name=None, caller=False, sev=4, width=3, minw=36, probe=None, salt=0):
+    def add(self, tag, msg=None, attrs=None, name=None, caller=False, sev=4, width=3, minw=36, probe=None, salt=0, lc=None):
         if sev == 8 and all(c in ("space", "LF", "CR", "TAB") for c in (msg or [])) and msg is not None:
             sev = 4           # severity Always with a blank message is C02's special case, not a record
         c = dict(id=len(self.cases), fmt=self.fmt, testing=False,
                  name=dict(has=name is not None, cls=list(name or [])), sev=sev, caller=caller, width=width,
-                 minw=minw, msg=list(msg if msg is not None else ["plain"]), attrs=attrs or [], salt=salt)
+                 minw=minw, msg=list(msg if msg is not None else ["plain"]), attrs=attrs or [], salt=salt,
+                 lc=dict(set=True, fg=lc[0], bg=lc[1]) if lc else dict(NO_LC))
         if probe:
             c["probe"] = probe
         self.cases.append(c)
@@ -194,6 +226,98 @@ def gen_trees(g, trees):
         g.add(dict(t="tree"), attrs=nest(flat), caller=i % 2 == 0, name=["plain"] if i % 3 == 0 else None)
 
 
+def wrap_groups(members, depth, base=10):
+    """members as the member list of a group nested `depth` levels deep (ordinary siblings at every level)."""
+    cur = members
+    for d in range(depth, 0, -1):
+        cur = [node(base + d, "int", 100 + d), node(base + 20 + d, "group", 200 + d, sub=cur), node(base + 40 + d, "string", 300 + d)]
+    return cur
+
+
+def gen_reserved(g, vocab, rtrees, quick):
+    """The reserved field names as keys: of a group member at depth 1..3 with every value kind (a group
+    too), in every tree TLC enumerated over {k01, time}, and (colored) of top-level attributes."""
+    fmt = g.fmt
+    kinds = sorted(k for k in vocab["kinds"] if k != "textm" or fmt == "color")
+    for name, rid in sorted(RESERVED.items()):
+        for kind in kinds:
+            for depth in ((0, 1, 2, 3) if fmt == "color" else (1, 2, 3)):
+                nsalt = 3 if kind in ("time", "times") else 1 if quick else 2
+                for s in range(nsalt):
+                    x = node(rid, kind, 1, sub=[node(2, "int", 2), node(rid, "string", 3)] if kind == "group" else None)
+                    members = [node(1, "int", 4), x, node(50, "string", 5)]
+                    c = g.add(dict(t="reskey", where="member-key" if depth else "top-key", name=name, kind=kind, depth=depth),
+                              attrs=wrap_groups(members, depth), salt=s, caller=(depth + s) % 2 == 1,
+                              msg=["plain", "LF", "plain"] if s == 1 else ["plain"])
+                    c["byvar"] = kind in ("time", "times")
+    # every tree over the keys {k01, time}; the leaves under `time` hold a time.Time / an int
+    for i, flat in enumerate(rtrees):
+        for leaf in ("time", "int"):
+            attrs = nest(flat)
+
+            def retype(ns):
+                for n in ns:
+                    if n["kind"] == "group":
+                        retype(n["sub"])
+                    elif n["k"] == RESERVED["time"]:
+                        n["kind"] = leaf
+            retype(attrs)
+            g.add(dict(t="rtree", leaf=leaf), attrs=attrs, caller=i % 2 == 0, name=["plain"] if i % 3 == 0 else None, salt=i % 3)
+
+
+LC_SHAPES = [
+    ("1", ["plain"]), ("2", ["plain", "LF", "plain"]), ("3", ["plain", "LF", "plain", "space", "plain", "LF", "plain"]),
+    ("4", ["plain", "LF", "plain", "LF", "nonascii", "LF", "plain"]), ("5", ["plain", "LF", "plain"] + ["LF", "plain"] * 3),
+    ("3-blank-middle", ["plain", "LF", "LF", "plain"]), ("4-blank-lines", ["plain", "LF", "LF", "LF", "plain"]),
+    ("2-trailing", ["plain", "LF", "plain", "LF"]), ("3-trailing", ["plain", "LF", "plain", "LF", "plain", "LF", "LF"]),
+    ("1-trailing", ["plain", "LF"]),
+]
+LC_ATTRS = [
+    ("none", lambda: []), ("int", lambda: [node(1, "int", 1)]),
+    ("error+string", lambda: [node(1, "error", 1), node(2, "string", 2)]),
+    ("group", lambda: [node(1, "int", 1), node(2, "group", 2, sub=[node(3, "string", 3), node(4, "bool", 4)]), node(5, "duration", 5)]),
+]
+
+
+def lines_class(msg):
+    m = list(msg)
+    while m and m[-1] == "LF":
+        m.pop()
+    n = 1 + m.count("LF")
+    return "1" if n == 1 else "2" if n == 2 else "3+"
+
+
+def gen_colours(g, quick):
+    """Level colour configurations as part of the cell space: SetLevelColors(sev, fg, bg) for every
+    combination of {no foreground, a foreground} x {nothing, a background colour, a text attribute}
+    x message shapes (1, 2, 3, 4, 5 lines, blank lines, trailing breaks) x attribute lists, over
+    built-in, registered (17, 18) and unregistered (34) severities."""
+    sevs = SEVS[:-1] + [SEV_COLOURED_UNREG]
+    if g.fmt != "color":
+        # the colour table must not matter at all outside colored mode
+        for i, lc in enumerate(LC_COMBOS):
+            for j, (shn, msg) in enumerate(LC_SHAPES[:3]):
+                g.add(dict(t="lc", fg=lc[0], bg=lc[1], lines=lines_class(msg), shape=shn, attrs="int"), msg=msg,
+                      attrs=[node(1, "int", 1), node(2, "string", 2)], sev=sevs[(i * 3 + j) % len(sevs)], lc=lc)
+        return
+    n = 0
+    for lc in LC_COMBOS:
+        for shn, msg in LC_SHAPES:
+            for an, mk in LC_ATTRS:
+                pick = sevs if not quick else [sevs[(n * 7 + k * 5) % len(sevs)] for k in range(2)]
+                for sev in pick:
+                    g.add(dict(t="lc", fg=lc[0], bg=lc[1], lines=lines_class(msg), shape=shn, attrs=an), msg=msg, attrs=mk(),
+                          sev=sev, lc=lc, caller=n % 3 == 0, name=["plain"] if n % 2 else None, width=1 + n % 5,
+                          minw=(16, 36, 80)[n % 3], salt=n % 4)
+                n += 1
+    if quick:
+        # every (severity, configuration) at least once, on a message of three lines
+        for sev in sevs:
+            for lc in LC_COMBOS:
+                g.add(dict(t="lc", fg=lc[0], bg=lc[1], lines="3+", shape="3", attrs="int"), msg=LC_SHAPES[2][1],
+                      attrs=[node(1, "int", 1)], sev=sev, lc=lc)
+
+
 SHAPES = [
     ("one", ["plain"], "regular"), ("long", ["plain"] * 50, "regular"), ("two", ["plain", "LF", "plain"], "regular"),
     ("three", ["plain", "LF", "plain", "space", "plain", "LF", "plain"], "regular"),
@@ -239,7 +363,7 @@ def gen_grid(g, quick):
 def parse_known(ctx, fmt, vocab):
     """Features named by the listed known findings of this property (used to also generate big
     records that avoid them, so that those records are judged without any allowance)."""
-    bad = dict(kinds=set(), text=set(), key=set(), name=set(), msg=set(), attrs=set(), raw={})
+    bad = dict(kinds=set(), text=set(), key=set(), name=set(), msg=set(), attrs=set(), raw={}, reserved=set(), colours=set())
     must = set(vocab["must"][fmt])
     for k in ctx.known:
         parts = k["key"].split(":")
@@ -247,7 +371,11 @@ def parse_known(ctx, fmt, vocab):
             continue
         pos, cls = parts[1], parts[2]
         cl = must if cls == "*" else {cls}
-        if pos == "value":
+        if pos in ("member-key", "top-key"):
+            bad["reserved"].add((pos, cls, parts[3] if len(parts) > 3 else "*"))
+        elif pos == "colours":
+            bad["colours"].add(cls)
+        elif pos == "value":
             bad["kinds"].add(cls)
         elif pos == "attrs":
             bad["attrs"].add(cls)
@@ -264,8 +392,13 @@ def gen_big(g, vocab, count, clean_of=None):
     fmt = g.fmt
     classes = sorted(vocab["classes"])
     kinds = sorted(k for k in vocab["kinds"] if k != "group" and (k != "textm" or fmt == "color"))
-    bad = clean_of or dict(kinds=set(), text=set(), key=set(), name=set(), msg=set(), attrs=set(), raw={})
+    bad = clean_of or dict(kinds=set(), text=set(), key=set(), name=set(), msg=set(), attrs=set(), raw={}, reserved=set(),
+                           colours=set())
     kinds = [k for k in kinds if k not in bad["kinds"]]
+
+    def reserved_ok(where, name, kind):
+        return not any(w == where and n in (name, "*") and k in (kind, "*") for (w, n, k) in bad["reserved"])
+    lcs = [lc for lc in LC_COMBOS if "%s+%s" % lc not in bad["colours"]]
     no_groups = "group" in bad["attrs"]
     groups_last = "after-group" in bad["attrs"]
     no_empty_group = "empty-group" in bad["attrs"]
@@ -306,10 +439,24 @@ def gen_big(g, vocab, count, clean_of=None):
                         k = rng.randint(1, 90)
                 if fmt == "json" and rng.random() < 0.02 and "empty-key" not in bad["attrs"] and 0 not in used:
                     k = 0
+                # a reserved field name as the own key of a group member (colored: of a top-level attribute too)
+                res = (depth > 0 or (fmt == "color" and rng.random() < 0.3)) and rng.random() < 0.12
+                if res:
+                    rk = rng.choice(sorted(RES_NAME))
+                    if rk not in used:
+                        k = rk
                 used.append(k)
-                kc = keyclass.setdefault(k, rng.choice(keycls + ["plain"] * 3 * len(keycls)) if k else "plain")
+                kc = keyclass.setdefault(k, rng.choice(keycls + ["plain"] * 3 * len(keycls)) if 0 < k < 91 else "plain")
                 vid[0] += 1
                 is_group = (not no_groups and depth < 4 and rng.random() < 0.12 and not (no_nested and depth > 0))
+                if k in RES_NAME and not is_group:
+                    kind = rng.choice(["time"] * 3 + kinds)
+                    if kind in kinds and reserved_ok("member-key" if depth else "top-key", RES_NAME[k], kind):
+                        vc = vclass(kind) if kind in vocab["textkinds"] else "plain"
+                        out.append(node(k, kind, vid[0], kc=kc, vc=vc))
+                        continue
+                    k = used[-1] = 91 + len(used) % 5            # that cell is a listed finding: an ordinary key instead
+                    kc = keyclass.setdefault(k, "plain")
                 if is_group:
                     m = rng.choice([0, 1, 2, 3, 6]) if not no_empty_group else rng.choice([1, 2, 3, 6])
                     x = node(k, "group", vid[0], kc=kc)
@@ -325,7 +472,7 @@ def gen_big(g, vocab, count, clean_of=None):
                 if gs:
                     keep = gs[-1]
                     out = [x for x in out if x["kind"] != "group"]
-                    top = max([x["k"] for x in out] + [0]) + 1
+                    top = max([x["k"] for x in out if x["k"] < 91] + [0]) + 1
                     keep["k"] = max(top, keep["k"])
                     keyclass.setdefault(keep["k"], "plain")
                     keep["kc"] = keyclass[keep["k"]]
@@ -343,8 +490,10 @@ def gen_big(g, vocab, count, clean_of=None):
             if "LF" in bad["msg"]:
                 msg = [c for c in msg if c != "LF"]
         nm = None if rng.random() < 0.5 else [rng.choice(namecls + ["plain"] * 4) for _ in range(rng.randint(0, 3))]
+        lc = rng.choice(lcs) if lcs and rng.random() < (0.4 if fmt == "color" else 0.1) else None
         g.add(dict(t="big", clean=clean_of is not None), msg=msg, attrs=attrs, name=nm, caller=rng.random() < 0.5,
-              sev=rng.choice(SEVS), width=rng.randint(1, 5), minw=rng.choice([16, 36, 80]))
+              sev=rng.choice(SEVS[:-1] + [SEV_COLOURED_UNREG]) if lc else rng.choice(SEVS), width=rng.randint(1, 5),
+              minw=rng.choice([16, 36, 80]), lc=lc)
 
 
 # ------------------------------------------------------------------ execution and validation
@@ -428,6 +577,11 @@ def key_feature(key):
 def feats_match(fmt, key, feats, vocab):
     """Does a failing record with TLC-reported features `feats` contain the feature `key` names?"""
     pos, cls = key_feature(key)
+    if pos in ("member-key", "top-key"):
+        kind = (key.split(":") + ["*"])[3]
+        return any(f.split(":")[0] == pos and cls in (f.split(":")[1], "*") and kind in (f.split(":")[2], "*") for f in feats)
+    if pos == "colours":
+        return "colours:" + cls in feats
     must = set(vocab["must"][fmt])
     fs = set()
     for f in feats:
@@ -528,6 +682,51 @@ def name_findings(ctx, fmt, vocab, cases, tags, bad, details, testing, seen_keys
                 for i in idxs:
                     found.append(("%s:attrs:%s" % (fmt, nm), i))
                 break
+    # 3b. reserved field names as keys.  A cell names (place, name, kind); a name that fails with every
+    #     kind is one finding  <fmt>:member-key:<name>:*.  Clauses that are not about the attribute list
+    #     are appended.  Trees over {k01, time} are filed under the reserved-key feature TLC reports.
+    res_fail = {}
+    for i, b in by_line.items():
+        t = tags[i]
+        if t["t"] == "reskey":
+            other = set(b["diag"]) - ATTR_DIAGS
+            res_fail.setdefault((t["where"], t["name"], "+".join(sorted(other))), {}).setdefault(t["kind"], []).append(i)
+    nkinds = len([k for k in vocab["kinds"] if k != "textm" or fmt == "color"])
+    res_keys = set()
+    for (where, name, other), per in res_fail.items():
+        for kind, idxs in per.items():
+            for i in idxs:
+                key = "%s:%s:%s:%s%s" % (fmt, where, name, "*" if len(per) >= nkinds else kind, ":" + other if other else "")
+                res_keys.add(key)
+                found.append((key, i))
+    res_keys |= {k["key"] for k in ctx.known if k["key"].split(":")[1:2] in (["member-key"], ["top-key"])}
+    for i, b in by_line.items():
+        if tags[i]["t"] == "rtree":
+            # a tree over {k01, time}: filed under the (place, name, kind) cell that fails on its own, if the tree has it
+            other = set(b["diag"]) - ATTR_DIAGS
+            hit = sorted(k for k in res_keys if k.startswith(fmt + ":") and feats_match(fmt, k, b["feats"], vocab))
+            rf = sorted(f for f in b["feats"] if f.split(":")[0] in ("member-key", "top-key"))
+            key = hit[0] if hit and not other else \
+                ("%s:%s" % (fmt, rf[0]) if rf else "%s:attrs:reserved-tree" % fmt) + (":" + "+".join(sorted(other)) if other else "")
+            found.append((key, i))
+    # 3c. level colour configurations: <fmt>:colours:<fg>+<bg>:<1|2|3+>-lines:<violated clauses>
+    #     (+ :<severity classes> when only some of builtin / registered / unregistered severities fail)
+    def sev_class(sev):
+        return "builtin" if sev < 12 else "registered" if sev in (17, 18) else "unregistered"
+    lc_all = {}
+    for i, t in enumerate(tags):
+        if t["t"] == "lc":
+            lc_all.setdefault((t["fg"], t["bg"], t["lines"]), set()).add(sev_class(cases[i]["sev"]))
+    lc_fail = {}
+    for i, b in by_line.items():
+        t = tags[i]
+        if t["t"] == "lc":
+            lc_fail.setdefault((t["fg"], t["bg"], t["lines"], "+".join(sorted(b["diag"]))), []).append(i)
+    for (fg, bg, lines, diag), idxs in lc_fail.items():
+        cls = {sev_class(cases[i]["sev"]) for i in idxs}
+        suffix = "" if cls >= lc_all[(fg, bg, lines)] else ":" + "+".join(sorted(cls))
+        for i in idxs:
+            found.append(("%s:colours:%s+%s:%s-lines:%s%s" % (fmt, fg, bg, lines, diag, suffix), i))
     # 4. presentation grid
     for i, b in by_line.items():
         t = tags[i]
@@ -574,7 +773,7 @@ def nontrivial_sig(c, tag):
     def shape(ns):
         return tuple((n["k"], n["kind"], n["kc"], n["vc"], shape(n["sub"])) for n in ns)
     return (c["fmt"], tuple(c["msg"]), shape(c["attrs"]), c["name"]["has"], tuple(c["name"]["cls"]), c["sev"],
-            c["caller"], c["width"], c["minw"])
+            c["caller"], c["width"], c["minw"], c["lc"]["set"], c["lc"]["fg"], c["lc"]["bg"])
 
 
 def run_format(ctx, fmt, replay):
@@ -588,6 +787,8 @@ def run_format(ctx, fmt, replay):
     gen_kinds(g, vocab, 12 if quick else 48)
     gen_trees(g, trees)
     gen_grid(g, quick)
+    gen_reserved(g, vocab, vocab["rtrees"], quick)
+    gen_colours(g, quick)
     known_feats = parse_known(ctx, fmt, vocab)
     gen_big(g, vocab, 120 if quick else 8000, clean_of=None)
     gen_big(g, vocab, 120 if quick else 8000, clean_of=known_feats)
@@ -600,6 +801,15 @@ def run_format(ctx, fmt, replay):
                    probe=dict(pos="error", cls=cls, quoted=quoted_at(fmt, "error")), salt=s,
                    msg=["plain", "LF", "plain"] if s % 2 else ["plain"])
     gen_trees(gt, trees[:: (10 if quick else 40)])
+    gen_reserved(gt, dict(vocab, kinds=["time", "error", "string", "group"]), vocab["rtrees"][:: (10 if quick else 4)], True)
+    if fmt == "color":
+        # the error dump of a go-test process under every colour configuration
+        for lc in LC_COMBOS:
+            for shn, msg in LC_SHAPES[:4]:
+                gt.add(dict(t="lc", fg=lc[0], bg=lc[1], lines=lines_class(msg), shape=shn, attrs="error"), msg=msg,
+                       attrs=[node(1, "error", 1), node(2, "int", 2)], sev=2 if shn in "13" else SEV_COLOURED_UNREG, lc=lc)
+                gt.add(dict(t="lc", fg=lc[0], bg=lc[1], lines=lines_class(msg), shape=shn, attrs="int"), msg=msg,
+                       attrs=[node(2, "int", 2)], sev=4, lc=lc)
     gen_big(gt, vocab, 40 if quick else 1500, clean_of=None)
     gen_big(gt, vocab, 40 if quick else 1500, clean_of=known_feats)
 
@@ -624,6 +834,14 @@ def run_format(ctx, fmt, replay):
                                               any_feature=sum(1 for i in big if not gen.tags[i]["clean"]),
                                               any_feature_rejected=sum(1 for i in big if not gen.tags[i]["clean"] and i in rej))
         ctx.extra["skipped_outside_domain_" + nm] = skipped
+        # binding of the colour configuration: the codes SetLevelColors was given must show up in colored records
+        lcset = [d for c, d in zip(gen.cases, details) if c["lc"]["set"] and c["lc"]["fg"] + c["lc"]["bg"] != "nonenone"]
+        if fmt == "color":
+            seen = sum(1 for d in lcset if d.get("lcon"))
+            ctx.extra["colour_configurations_seen_in_stream_" + nm] = "%d of %d" % (seen, len(lcset))
+            if lcset and seen * 2 < len(lcset):
+                raise Undecided("SetLevelColors had no visible effect in %d of %d colored records - binding broken"
+                                % (len(lcset) - seen, len(lcset)))
         ctx.extra["rejected_records_" + nm] = len(bad)
         allfound += name_findings(ctx, fmt, vocab, gen.cases, gen.tags, bad, details, testing, seen_keys, seen_minimal)
         for c, t in zip(gen.cases, gen.tags):
@@ -636,21 +854,32 @@ def run_format(ctx, fmt, replay):
     # ---- the same property over histories (spec/EncoderHist.tla, checks/enchistlib.py)
     enchistlib.run_history(ctx, fmt)
     ctx.extra["trees_enumerated_by_tlc"] = len(trees)
-    ctx.extra["records_by_source"] = {k: sum(1 for t in g.tags + gt.tags if t["t"] == k) for k in ("cls", "value", "tree", "grid", "big")}
+    ctx.extra["records_by_source"] = {k: sum(1 for t in g.tags + gt.tags if t["t"] == k)
+                                      for k in ("cls", "value", "tree", "grid", "reskey", "rtree", "lc", "big")}
+    ctx.extra["reserved_key_trees_enumerated_by_tlc"] = len(vocab["rtrees"])
     ctx.extra["finding_keys"] = sorted({k for k, _ in allfound})
     ctx.assumptions += [
         "value fidelity inside an abstract class is sampled (several concrete representatives per class per seed), structure is exhaustive up to the builder bound",
         "timestamps are checked for presence only (C16 owns their format); the level member is compared with Level.String()",
-        "generated keys avoid time/level/msg/caller/logger and '.'; values of kinds whose colored syntax C06 does not fix contain no spaces",
+        "keys contain no '.'; time/level/msg/logger/caller are generated as keys of group members at every depth (ordinary "
+        "attributes in all three formats); as TOP-LEVEL keys they are outside the domain of C04/C05 (quantifier) and are generated "
+        "for C06 only, where a top-level `time` holding a time.Time may be rendered in any way (TopTimeWaived); values of kinds "
+        "whose colored syntax C06 does not fix contain no spaces",
+        "level colours: SetLevelColors is called right before a record that carries lc.set and the table is put back afterwards "
+        "(sequences of colour changes and records are the history component's); an escape sequence ESC [ ... m with a malformed "
+        "parameter list (ESC[-1m, written for a level without foreground) is an escape sequence a terminal ignores: removed "
+        "like any other, no state change",
     ]
     return ctx.finish(
         rule="records = (position x character class) cells, value-kind cells, every attribute tree TLC enumerated "
-             "(<=%d nodes), presentation grid, seeded random big records, in production and go-test mode; "
+             "(<=%d nodes), presentation grid, reserved-name cells (5 names x every kind x depth 1..3, every tree over "
+             "{k01,time}), level-colour cells ({no fg,fg} x {none,bg,attr} x line shapes x attribute lists x severities), "
+             "seeded random big records, in production and go-test mode; "
              "non-trivial = distinct abstract records (message classes, attribute tree with kinds/classes, name, "
              "severity, caller, widths) executed and validated; PLUS histories of EncoderHist.tla: edge cover of the "
-             "TLC graphs of the groups cfg/seq/lvl/dbg/big (every configuration call sequence followed by a record, every "
+             "TLC graphs of the groups cfg/seq/lvl/dbg/big/clr (every configuration call sequence followed by a record, every "
              "pair/triple of consecutive records and collections, register/width/switch events between records, size "
-             "classes) and seeded random deeper histories, one process per group and process kind, non-trivial there = "
+             "classes, every SetLevelColors configuration of a built-in and a custom severity followed by records of 1..4 lines) and seeded random deeper histories, one process per group and process kind, non-trivial there = "
              "distinct (group, process kind, previous event, event with the logger's reported mode) pairs" % (3 if quick else 4),
         exhaustive=True)
 
